@@ -333,12 +333,12 @@ def run_json_rows(ck, cases, label):
         return
     ck.obligation("%s: json stage (nested-key flattening, sanitizeLabel, path walker with array indexes) = model InternalJson.json_decode over the jx value tree on %d distinct (parameters, line) rows" % (label, len(rows)),
                   not m, "rows %s" % m[:10])
-    ck.obligation("%s: every json parameter label holds what the path finds in the document and nothing else is assigned (jlookup, distinct names) on the observed labels" % label, not v, "rows %s" % v[:10])
+    ck.obligation("%s: every json parameter label holds what the path finds in the document and nothing else is assigned (jlookup, distinct names), every name `| json` assigns is sanitised, on the observed labels" % label, not v, "rows %s" % v[:10])
     byi = dict(rows)
     bad = v or m
     if bad:
         r = min((byi[i] for i in bad), key=lambda r: len(r["msg"]))
-        ck.violation({"property": PID, "kind": ("a json parameter label does not hold what its path finds in the line" if v else "model/implementation disagree on the json stage"),
+        ck.violation({"property": PID, "kind": ("a json stage assigns a label that is not what its path finds in the line / not a sanitised name" if v else "model/implementation disagree on the json stage"),
                       "line": unhex(r["msg"]).decode("utf8", "replace"), "params": r.get("params"), "observed_labels": r.get("kv"), "tree": r.get("tree"),
                       "replay": "ParserPlanner{Op: json, ParameterNames/Values from params} on the single line (harness inteng Mode json)"}, no_input=not v)
     h = ck.extra.setdefault("json_rows", {"rows": 0, "with_params": 0, "refused_by_jx": 0, "depth>=3": 0, "skip_walk_disagree": 0, "needs_sanitising": 0, "index_paths": 0})
